@@ -56,6 +56,18 @@ type c06SweepRT struct {
 	reqLog    []string
 }
 
+func (rt *c06SweepRT) canon(dev string) int {
+	best := 0
+	for _, ms := range rt.mounts {
+		for _, m := range ms {
+			if m.dev == dev && (best == 0 || m.num < best) {
+				best = m.num
+			}
+		}
+	}
+	return best
+}
+
 func (rt *c06SweepRT) RoundTrip(req *http.Request) (*http.Response, error) {
 	rt.mtx.Lock()
 	defer rt.mtx.Unlock()
@@ -107,7 +119,9 @@ func (rt *c06SweepRT) RoundTrip(req *http.Request) (*http.Response, error) {
 		u := strings.TrimSuffix(strings.TrimPrefix(path, "/mounts/"), "/blocks")
 		for _, m := range rt.mounts[srv] {
 			if m.uuid == u {
-				id = fmt.Sprintf("QIndex %d", m.num)
+				// a device mounted on several services is indexed through whichever mount the balancer
+				// happens to pick (map order): name the request by the device's first mount
+				id = fmt.Sprintf("QIndex %d", rt.canon(m.dev))
 			}
 		}
 	case srv >= 0 && req.Method == "PUT" && (path == "/trash" || path == "/pull"):
